@@ -74,8 +74,16 @@ def mutate(rng, payloads):
 
 def hostile_tags(rng):
     """small inputs with hostile type tags: deep nesting, huge counts of zero-size elements, bad enums"""
-    k = rng.randrange(7)
-    if k == 0:
+    k = rng.randrange(8)
+    if k == 7:
+        # nesting around the recursion limit below a sequence of more than 32 elements: the limit is consumed by `singular` first
+        d = rng.choice([1000, 2040, 2044, 2045, 2046, 2047, 2048, 2049, 2050, 2060])
+        op = rng.choice([b'(', b'[', b'<', b'{'])
+        inner = (b"{S`a'" * d + b'()' + b'}' * d) if op == b'{' else (op * d + (b'()' if op != b'<' else b'') + {b'(': b')', b'[': b'', b'<': b'>'}[op] * d)
+        tag = b'[' + inner
+        # (more than 32 elements: with fewer the model's list-append output makes 32 visits of a 2000-deep value take minutes)
+        args = G.u32(rng.choice([33, 40, 1000])) + bytes(rng.choice([0, 0, 1]) for _ in range(rng.choice([0, 40, 200])))
+    elif k == 0:
         tag = b'[' * rng.choice([10, 2047, 2048, 2100]) + b'i'
         args = G.u32(1) * rng.choice([3, 2048])
     elif k == 1:
@@ -129,6 +137,20 @@ def dag_witness(n):
 def seq_witness(count):
     tag = b"({B`x'()}[{B})"
     return G.frames([G.cs_payload(0, 10 ** 9, 0, 0, b''), G.source_payload(1, 128, fmt=b'{}', tags=tag), G.event_payload(1, 0, G.u32(count))])
+
+
+def deep_witnesses(depth):
+    """tags nested far deeper than any stack allows, directly and as the element of a sequence of more than 32 elements (the
+    path through `singular`): every recursion over the tag must be cut by the recursion limit, whatever the bracket kind"""
+    close = {b'(': b')', b'[': b'', b'<': b'>'}
+    out = []
+    for op in (b'(', b'[', b'<', b'{'):
+        for pre in (b'', b'['):
+            inner = (b"{S`a'" * depth + b'i' + b'}' * depth) if op == b'{' else (op * depth + b'i' + close[op] * depth)
+            args = (G.u32(33) if pre else b'') + (G.u32(1) * 40 if op == b'[' else bytes(200))
+            out.append(('deep-%s%s-%d' % (pre.decode(), op.decode(), depth),
+                        G.frames([G.cs_payload(0, 10 ** 9, 0, 0, b''), G.source_payload(1, 128, fmt=b'{}', tags=pre + inner), G.event_payload(1, 0, args)])))
+    return out
 
 
 BIG = 1 << 20
@@ -297,6 +319,22 @@ def check_c09(ctx):
                           'C09: bread ended with status %d (not a reported error) on an input with a huge size field: %s' % (p.returncode, p.stderr.decode('latin1')[-200:]),
                           {'kind': 'input', 'file_hex': file.hex(), 'format': f_.hex(), 'date_format': d_.hex(), 'sorted': s_})
     st['huge_size_fields'] = big
+    # nesting far beyond the stack: the real bread binary under an 8 MiB stack must report an error, not die
+    deep = {}
+    for depth in ([100000] if ctx.tier == 'quick' else [100000, 1000000]):
+        for name, data in deep_witnesses(depth):
+            path = os.path.join(BUILD, 'c09deep-%d.blog' % os.getpid())
+            open(path, 'wb').write(data)
+            p = subprocess.run([breadn, '-f', '%m', path], stdout=subprocess.DEVNULL, stderr=subprocess.PIPE, timeout=600,
+                               preexec_fn=lambda: resource.setrlimit(resource.RLIMIT_STACK, (8 << 20, 8 << 20)))
+            os.remove(path)
+            deep[name] = p.returncode
+            if p.returncode not in (0, 3):
+                prop_fail.add(-3)
+                ctx.violation(name, 'C09: bread ended with status %d (killed by a signal: stack overflow) on a %d byte log whose tag nests %d levels' % (
+                    p.returncode, len(data), depth), {'kind': 'input', 'generator': 'checks_robust.deep_witnesses(%d)' % depth, 'name': name,
+                    'file_hex_prefix': data[:200].hex(), 'file_bytes': len(data), 'format': '%m', 'replay': 'bread -f %m <file> under ulimit -s 8192'})
+    st['deep_nesting'] = deep
     finish_proof(ctx, ok, bool(prop_fail))
     ctx.coverage.update({'evaluations': len(lines), 'distinct_nontrivial': len(nontrivial),
                          'traces_validated_against_impl': len(lines) - len(mism),
